@@ -1,7 +1,7 @@
 (* FilterCheck.v — executable comparison of the C02 models with observations of the real
    code (used by the generated case files of harness/cmd/c02).  Every check returns the
    indices of the cases on which model and observation differ. *)
-From SigM Require Import Base Dte Filter.
+From SigM Require Import Base Dte Filter FilterPlan.
 From Coq Require Import QArith.
 Open Scope Z_scope.
 
@@ -71,3 +71,51 @@ Definition check_guarded (evs : list event) (qs : list (expr * trange * list N))
 (* does the guard hold (reported by the harness as coverage) *)
 Definition guard_holds (evs : list event) (e : expr) : bool :=
   expr_wf e && forallb (fun ev => ev_wf ev && expr_guard false e ev) evs.
+
+(* ---------- the block / column plan (FilterPlan.v) ---------- *)
+(* plans are compared as maps: same blocks, per block the same set of columns *)
+Definition cols_eqb (a b : list N) : bool :=
+  forallb (fun c => mem_col c b) a && forallb (fun c => mem_col c a) b.
+Definition plan_sub (p q : plan) : bool :=
+  forallb (fun bc : N * list N =>
+             match lookup_b (fst bc) q with Some cq => cols_eqb (snd bc) cq | None => false end) p.
+Definition plan_eqb (p q : plan) : bool := plan_sub p q && plan_sub q p.
+Definition oplan_eqb (p q : option plan) : bool :=
+  match p, q with
+  | None, None => true
+  | Some a, Some b => plan_eqb a b
+  | _, _ => false
+  end.
+
+(* SegmentSearchRequest.JoinRequest driven directly: (op is And, receiver, toJoin, receiver afterwards) *)
+Definition check_join (cases : list (bool * plan * plan * plan)) : list nat :=
+  mism (fun c : bool * plan * plan * plan => match c with (isand, p, q, obs) =>
+          plan_eqb (join_req (if isand then LAnd else LOr) p q) obs end) cases 0.
+
+(* the plan ExtractSSRFromSearchNode / ExtractUnrotatedSSRFromSearchNode returned for a query on a block layout
+   (queries whose leaves are all numeric: range entries are deterministic, blooms are not modelled) *)
+Definition check_plan_of (blks : list blockrec) (qs : list (expr * trange * option plan)) : list nat :=
+  mism (fun q => match q with (e, tr, obs) =>
+          oplan_eqb (plan_of cmi_model tr (push_not false e) blks) obs end) qs 0.
+
+(* end to end on a block layout: the ids a search returned = the search executed under the merged plan *)
+Definition check_plan_select (blks : list blockrec) (qs : list (expr * trange * list N)) : list nat :=
+  mism (fun q => match q with (e, tr, obs) =>
+          ids_eqb (ids (plan_select cmi_model e tr blks)) obs end) qs 0.
+
+(* model self-check (redundant with plan_select_exact where cmi_model is sound): the plan does not change the result *)
+Definition check_plan_neutral (blks : list blockrec) (qs : list (expr * trange * list N)) : list nat :=
+  mism (fun q => match q with (e, tr, _) =>
+          ids_eqb (ids (plan_select cmi_model e tr blks)) (ids (impl_select e tr (all_events blks))) end) qs 0.
+
+(* both of the above with ONE evaluation of the planned search per query: index i = the returned ids differ from the
+   planned search, 1000 + i = the planned search differs from the unplanned one *)
+Fixpoint check_plan_select2 (blks : list blockrec) (qs : list (expr * trange * list N)) (idx : nat) : list nat :=
+  match qs with
+  | [] => []
+  | (e, tr, obs) :: r =>
+      let got := ids (plan_select cmi_model e tr blks) in
+      (if ids_eqb got obs then [] else [idx])
+      ++ (if ids_eqb got (ids (impl_select e tr (all_events blks))) then [] else [(1000 + idx)%nat])
+      ++ check_plan_select2 blks r (S idx)
+  end.
